@@ -131,10 +131,13 @@ theorem safe_readFrameHeader (s : St) (h : Good s) : Safe (readFrameHeader s) :=
   · exact h
   · refine Safe.bind (safe_readVarint s h) ?_
     intro ft s1 h1
-    refine Safe.bind (safe_readVarint s1 h1) ?_
-    intro size s2 h2
-    show Good _
-    upd h2
+    have h2 := safe_readVarint s1 h1
+    generalize readVarint s1 = x at h2 ⊢
+    cases x with
+    | ok size s2 => show Good _; upd h2
+    | err e s2 => dsimp only; split <;> exact h2
+    | panic => exact False.elim h2
+    | hang => exact True.intro
 
 theorem safe_endFrame (s : St) (h : Good s) : Safe (endFrame s) := by
   unfold endFrame
@@ -510,7 +513,7 @@ theorem handleUni_no_panic (data : List Nat) : handleUni (St.fresh data) ≠ .pa
       | err e s2 =>
         intro h2
         have hd : s2.dead = false := (show Good s2 from h2).1
-        cases e <;> simp [finish, handleStreamError, hd]
+        cases e <;> simp only [finish, handleStreamError, hd] <;> (try split) <;> simp_all
       | panic => intro h2; exact False.elim h2
       | hang => intro _; simp [finish]
     · split
